@@ -3686,6 +3686,9 @@ class CacheDataset(Dataset):
             item = self.keys().index(item)
 
         if isinstance(item, numbers.Integral):
+            if item < 0 and -len(self) <= item:
+                # ds[-1] and ds[len(ds) - 1] have to share one cache entry
+                item = item + len(self)
             try:
                 return self._cache[item]
             except KeyError:
